@@ -220,4 +220,15 @@ CHECKS['C16'] = {
     'assumptions': ['printf/formatting is stubbed'],
 }
 
+CHECKS['C18'] = {
+    'jobs': {'quick': [J('c18_proxy.cpp', [], wall=280, markers=(1, 2, 3), opts={'max_instr': 30000000})],
+             'thorough': [J('c18_proxy.cpp', [], wall=900, markers=(1, 2, 3), opts={'max_instr': 30000000})]},
+    'bounds': {'quick': 'one request of 7 kinds (literal host:port; named host resolved through the simulated resolver, other method, query; unresolvable name; refused port; default port 80 with nobody listening; '
+                        'relative URI; literal with extra header and Host) or two pipelined requests to the same origin (3 pairs); the byte stream cut into up to 3 writes at 5 candidate positions, back to back or 10 ms apart; '
+                        'the origin (in the harness) records what it receives and answers distinct fixed responses; then a second client, then stop() and a refused connect',
+               'thorough': 'same space (exhaustive already)'},
+    'outside': ['IPv6 literals', 'requests to different origins on one client connection (unsupported by the proxy: TODO in the source)', 'large bodies'],
+    'assumptions': ['printf/formatting is stubbed'],
+}
+
 NOT_APPLICABLE = {}
